@@ -182,6 +182,16 @@ def run(ctx):
             return
     st.sample({'logic': 'CTL', 'text': 'A F G q', 'must_reject': True})
 
+    f = core.run_random(ctx, random_shard, 6000, 60000)
+    if f is not None:
+        ctx.violation(f)
+        return
+    if ctx.thorough:
+        fuzz_stage(ctx)
+
+
+def random_shard(st, shard, nshards, payload):
+    from hypothesis import strategies as hs
     kinds = {'PL': 'pl', 'LTL': 'ltl', 'CTLS': 'ctls', 'CTL': 'ctl'}
     atoms = ('p', 'q', 'Ap', 'a b', 'andy')
 
@@ -247,12 +257,9 @@ def run(ctx):
                 st.sample(dict(inp, cls=c['cls'], accepted=acc), cls='%s-%s-%s' % (c['cls'], logic, acc))
         return None
 
-    f = core.run_hypothesis(ctx, cases(), body, ctx.pick(2500, 40000))
+    f = core.hyp_run(payload['seed'] * 1000 + shard, cases(), body, payload['n'])
     if f is not None:
-        ctx.violation(f)
-        return
-    if ctx.thorough:
-        fuzz_stage(ctx)
+        st.failure = f
 
 
 def fuzz_stage(ctx):
